@@ -17,9 +17,11 @@ fn lib_menu() -> Vec<&'static str> {
     // line nested deep enough that nothing of the nesting budget may have been used up before
     let deep_bad: &'static str = Box::leak(format!("30 IF 0 THEN PRINT {}1 + \"A\"{}", "(".repeat(40), ")".repeat(40)).into_boxed_str());
     let deep_ok: &'static str = Box::leak(format!("40 PRINT {}7{}", "(".repeat(40), ")".repeat(40)).into_boxed_str());
+    let deep_calls: &'static str = Box::leak(format!("42 PRINT {}7.5{}", "INT(".repeat(40), ")".repeat(40)).into_boxed_str());
     vec![
         deep_bad,
         deep_ok,
+        deep_calls,
         "10 X = 1",
         "10 PRINT X",
         "10 PRINT \"é\" + 1",
@@ -146,6 +148,7 @@ fn cli_programs() -> Vec<CliProg> {
         CliProg { name: "INPUT in a loop with surplus items", text: "10 FOR I = 1 TO 2: PRINT I;: INPUT V: PRINT V,: NEXT I\n20 PRINT \"done\"\n", replies: "1,2\n3\n", analysis_error: false },
         CliProg { name: "runtime error with replies left over", text: "10 INPUT A\n20 PRINT 1 / (A - 5)\n30 INPUT B\n", replies: "5\nPRINT 99\n10 PRINT 77\nRUN\n", analysis_error: false },
         CliProg { name: "tabs inside literal text", text: "10 PRINT \"NAME\tQTY\";T\n20 READ A$, B$: PRINT A$;\"|\";B$\n30 REM a\tb\n40 DATA \"x\ty\", p\tq\n", replies: "", analysis_error: false },
+        CliProg { name: "comparison chains and nested calls", text: "10 A$ = \"NO\": B$ = \"NO\"\n20 PRINT A$ = B$ = 1; \"X\" < \"Y\" = 1 < 2\n30 IF A$ = \"NO\" = 0 THEN PRINT \"no\" ELSE PRINT \"yes\"\n40 PRINT INT(INT(INT(INT(INT(INT(INT(INT(INT(INT(INT(INT(INT(INT(INT(INT(INT(INT(INT(INT(INT(INT(INT(INT(INT(INT(INT(INT(INT(INT(INT(INT(INT(INT(INT(INT(INT(INT(INT(INT(7.5))))))))))))))))))))))))))))))))))))))));Z\n", replies: "", analysis_error: false },
         CliProg { name: "long unbroken output", text: "10 FOR I = 1 TO 120: PRINT \"xyz\";: NEXT I\n20 PRINT L\n", replies: "", analysis_error: false },
     ]
 }
